@@ -893,7 +893,9 @@ def run(tier, seed):  # pylint: disable=too-many-locals,too-many-statements
                     "the first difference",
         },
         "assumptions": [
-            "bounds: spec/survey/*_qs.cfg, *_qe.cfg (quick) and *_ts.cfg, *_te.cfg (thorough); written by spec/survey/gen_cfgs.py",
+            "bounds: spec/survey/*_qs.cfg, *_qe.cfg (quick) and additionally *_ts.cfg, *_te.cfg (thorough), written by "
+            "spec/survey/gen_cfgs.py: histories of 3-5 actions, <= 2 copies, <= 2 edits, <= 1 (DC/MT: 2) re-opens, 1-2 accepted values "
+            "per setter, 4 stations and 2 loops / dipoles, masks lo (and mid)",
             "a history edits through one group of setters (channels / unit+input type / waveform+timing mark / loop radius / "
             "one offset / bearing flag / free keys); all setters end in the same edit_em_metadata",
             "quick: the setters implemented in shared base classes are spread over the class pairs, every pair exercises "
